@@ -87,6 +87,10 @@ def gen_cases(tier, seed):
         QQ = lambda *acts: [{'at': 'q', 'act': list(a)} for a in acts]  # noqa: E731
         plist += [QQ(['reincarnate'], ['resume', ['new-instance']]), QQ(['pause', 'p'], ['reincarnate'], ['resume', ['new-instance']], ['play']),
                   QQ(['pause', 'p'], ['reincarnate'], ['play'], ['resume', ['new-instance']]), QQ(['reincarnate'], ['reincarnate'], ['resume', ['new-instance']])]
+        # ... written by whoever gave up stepping the paused process, before the cancellation of the stepping task was delivered
+        for s0 in range(0, ns + 1):
+            plist.append([{'at': s0, 'act': ['pause', 'p']}, {'at': 'q', 'act': ['abort_task']}, {'at': 'q+', 'act': ['reincarnate']},
+                          {'at': 'q', 'act': ['resume', ['new-instance']]}, {'at': 'q', 'act': ['play']}])
         # the wake-up value is None (a value like any other: the continuation is called with it, not without an argument)
         for s0 in range(0, ns + 1):
             plist.append([{'at': s0, 'act': ['resume', [None]]}])
